@@ -18,11 +18,11 @@ def plan(tier, seed):
                 env["C15_FREEZE"] = "form-text"
             if not q:
                 env["C15_NCUTS"] = 2
-            conds.append(Cond("session-v%d-i%d-op%02d" % (ver, init, lo), F, "session", env=env, timeout=280 if q else 3000))
+            conds.append(Cond("session-v%d-i%d-op%02d" % (ver, init, lo), F, "session", env=env, timeout=280 if q else 1800))
     if not q:
         for ver, init in combos:
             conds.append(Cond("session2-v%d-i%d" % (ver, init), F, "session",
-                              env={"C15_VERSION": ver, "C15_INIT": init, "C15_L": 2, "C15_NCUTS": 5}, timeout=3000))
+                              env={"C15_VERSION": ver, "C15_INIT": init, "C15_L": 2, "C15_NCUTS": 5}, timeout=1800))
     conds.append(Cond("session-vacuity", F, "session", env={"C15_L": 1}, timeout=90, vacuity=True))
     meta = dict(functions=["sievelib.managesieve.Client: every public operation, __send_command, __read_response, __read_line, "
                            "__read_block, __parse_error, __prepare_args, __prepare_content"],
